@@ -456,7 +456,10 @@ impl Exec {
                 Some((String::new(), s))
             }
             "write" => {
-                let rd = self.pending.as_ref().unwrap();
+                // `write take`: an application that MOVES the entries out of the Ready (Ready::take_entries, a public
+                // accessor like entries()) before it persists them and hands the Ready back to advance*()
+                let take = real.get(1) == Some(&"take");
+                let rd = self.pending.as_mut().unwrap();
                 let st = self.store.as_ref().unwrap();
                 let mut res = "ok";
                 if *rd.snapshot() != Snapshot::default() {
@@ -465,7 +468,12 @@ impl Exec {
                     }
                 }
                 if res == "ok" {
-                    st.wl().append(rd.entries()).unwrap();
+                    if take {
+                        let ents = rd.take_entries();
+                        st.wl().append(&ents).unwrap();
+                    } else {
+                        st.wl().append(rd.entries()).unwrap();
+                    }
                     if let Some(hs) = rd.hs() {
                         st.wl().set_hardstate(hs.clone());
                     }
@@ -528,6 +536,8 @@ impl Exec {
 struct Gen<'a> {
     /// the application of this sequence does not store the commit index of a LightReady
     lazy_commit: bool,
+    /// the application of this sequence moves the entries out of a Ready (take_entries) instead of borrowing them
+    take_mode: bool,
     ex: Exec,
     rng: Rng,
     out: &'a mut dyn Write,
@@ -715,7 +725,7 @@ impl<'a> Gen<'a> {
         self.note_handed(&obs);
         let snap_ready = !obs.contains(" snap=- ");
         if !(self.violate && self.rng.chance(3)) {
-            self.run("write".into());
+            self.run(if self.take_mode { "write take".into() } else { "write".into() });
             if !self.alive {
                 return;
             }
@@ -846,7 +856,7 @@ pub fn random(seed: u64, cases: u64, len: u64, out: &mut dyn Write) -> u64 {
     for case in 0..cases {
         let mut rng = Rng::new(seed.wrapping_mul(0x9E37_79B9).wrapping_add(case));
         let (newcmd, applied) = initial(&mut rng);
-        let mut g = Gen { ex: Exec::default(), rng, out, lines: 0, handed_last: applied, violate: case % 10 == 9, alive: true, lazy_commit: case % 4 == 2 };
+        let mut g = Gen { ex: Exec::default(), rng, out, lines: 0, handed_last: applied, violate: case % 10 == 9, alive: true, lazy_commit: case % 4 == 2, take_mode: case % 3 == 1 };
         g.run(newcmd);
         let mut k = 0;
         while g.alive && k < len {
